@@ -243,3 +243,56 @@ def wholly_behind(origin, target_points, occ_vertices, margin):
 def inflate(points, centre, factor):
     c = np.asarray(centre, float)
     return c + (np.asarray(points, float) - c) * factor
+
+
+# ----------------------------------------------------------------------------------------
+# boxes that are large relative to the visible distance
+# ----------------------------------------------------------------------------------------
+def point_box_distance(p, centre, R, dims):
+    """Exact distance from point p to the solid box (centre, rotation matrix R, dims)."""
+    q = R.T @ (np.asarray(p, float) - np.asarray(centre, float))
+    half = np.asarray(dims, float) / 2.0
+    return float(np.linalg.norm(q - np.clip(q, -half, half)))
+
+
+def frame_from_axes(long_axis, thin_axis):
+    """Rotation matrix whose local X is long_axis, local Y is thin_axis (made orthonormal) and
+    local Z completes the right-handed frame."""
+    x = np.asarray(long_axis, float)
+    x = x / np.linalg.norm(x)
+    y = np.asarray(thin_axis, float)
+    y = y - (y @ x) * x
+    y = y / np.linalg.norm(y)
+    z = np.cross(x, y)
+    return np.column_stack([x, y, z])
+
+
+def box_cover_balls(centre, R, dims):
+    """Balls whose union contains the box: the box is cut into near-cubic pieces along its
+    longest axis, each piece is enclosed in its circumscribed ball.  [(centre, radius)]"""
+    dims = np.asarray(dims, float)
+    ax = int(np.argmax(dims))
+    others = [dims[i] for i in range(3) if i != ax]
+    n = max(1, int(math.ceil(dims[ax] / max(max(others), 1e-9))))
+    piece = dims[ax] / n
+    rad = 0.5 * math.sqrt(piece**2 + others[0] ** 2 + others[1] ** 2)
+    out = []
+    for i in range(n):
+        loc = np.zeros(3)
+        loc[ax] = -dims[ax] / 2 + (i + 0.5) * piece
+        out.append((np.asarray(centre, float) + R @ loc, rad))
+    return out
+
+
+def box_inner_balls(centre, R, dims, shrink=0.85):
+    """Balls contained in the box, strung along its longest axis.  [(centre, radius)]"""
+    dims = np.asarray(dims, float)
+    ax = int(np.argmax(dims))
+    r = 0.5 * min(dims[i] for i in range(3) if i != ax)
+    n = max(1, int(dims[ax] / (2 * r)))
+    out = []
+    for i in range(n):
+        loc = np.zeros(3)
+        loc[ax] = -dims[ax] / 2 + r + i * (dims[ax] - 2 * r) / max(n - 1, 1)
+        out.append((np.asarray(centre, float) + R @ loc, r * shrink))
+    return out
